@@ -411,6 +411,11 @@ func (fv *FV) goEq(st *State, l, r Term, x *ast.BinaryExpr) string {
 
 // strEq: extensional equality of strings.
 func (fv *FV) strEq(a, b Term) string {
+	if fv.pc != nil && fv.pc.AbstractStrEq {
+		fv.declare("strval$", "(declare-fun strval$ (Str) Int)")
+		fv.assumptions["string equality in this package is equality of an uninterpreted content function of the string (no byte-level reasoning); the real content is one interpretation of it"] = true
+		return eq(app("strval$", a.S), app("strval$", b.S))
+	}
 	fv.nfresh++
 	k := fmt.Sprintf("k?%d", fv.nfresh)
 	return and(eq("(strlen "+a.S+")", "(strlen "+b.S+")"),
@@ -460,6 +465,10 @@ func (fv *FV) evalSelector(st *State, x *ast.SelectorExpr) Term {
 
 func (fv *FV) evalCompositeLit(st *State, x *ast.CompositeLit, addr bool) Term {
 	t := fv.typeOf(x)
+	if pt, ok := t.Underlying().(*types.Pointer); ok && x.Type == nil {
+		// elided `&T` in a literal of pointers: []*T{{…}}
+		t, addr = pt.Elem(), true
+	}
 	switch ut := t.Underlying().(type) {
 	case *types.Struct:
 		named, _ := structOf(t)
